@@ -86,3 +86,24 @@ Theorem C09_family_error_iff_bad_node : forall ts d r e, sp_ddl ts = Some (d, r,
   (e = 0 /\ ddl_body ts = Some (Ok (d, r)) /\ exists ty fs, d = DNode ty fs) \/ (e = 1 /\ exists p q sk, d = DBad false p q sk).
 Proof. exact sp_ddl_errors. Qed.
 Print Assumptions C09_family_error_iff_bad_node.
+
+(* ---- through the list entry points: whenever the statement parser records exactly one error for a Bad node it returns and none otherwise,
+   ParseStatements / ParseDDLs / ParseDMLs report between (number of Bad nodes) and (number of Bad nodes + 1) errors -- the extra one only
+   for input left over -- so every Bad node has its error and no error means no Bad node; [sp] is ANY statement parser with that
+   discipline, [w] weighs a Bad node one ---- *)
+From Verif Require Import Parse.ListLoop Parse.ListErrors.
+Theorem C09_lists_have_an_error_per_bad_node : forall (stmt : Type) (sp : toks -> stmt * toks * nat) (w : stmt -> nat),
+  (forall ts, let '(s, _, e) := sp ts in e = w s) ->
+  forall ts, let '(ns, errs) := parse_many stmt sp ts in
+    (sumw stmt w ns <= errs <= sumw stmt w ns + 1)%nat /\ (errs = 0%nat -> sumw stmt w ns = 0%nat).
+Proof. exact parse_many_counts. Qed.
+Print Assumptions C09_lists_have_an_error_per_bad_node.
+
+(* the statement family keeps that discipline (both entry points), so lists of family statements do, whatever the rest of the parser
+   returns as long as it keeps it too *)
+Theorem C09_family_lists : forall other,
+  (forall ts, let '(s, _, e) := other ts in e = bad_weight s) ->
+  forall ts, let '(ns, errs) := parse_many dnode (spT other sp_stmt) ts in
+    (sumw dnode bad_weight ns <= errs <= sumw dnode bad_weight ns + 1)%nat /\ (errs = 0%nat -> sumw dnode bad_weight ns = 0%nat).
+Proof. intros other HO. exact (family_list_errors sp_stmt other sp_stmt_counts HO). Qed.
+Print Assumptions C09_family_lists.
